@@ -15,9 +15,11 @@
   invariant preservation is proved here), or the blanket hypothesis `hpres` of `histories_of_pres`.
 -/
 import UnicLocale.Lemmas.RefineInv
+import UnicLocale.Lemmas.ReachOps
+import UnicLocale.Props.C05
 
 namespace UL.Props.C10
-open UL
+open UL UL.Rf
 
 /-! ### one call -/
 
@@ -37,6 +39,19 @@ theorem refine_step_model (T : Tables) (x : Locale) (o : Op) (hx : x.inv = true)
     abs (step T x o).1 = (Spec.absStep (modelLikely T) (abs x) o).1 ∧
     (step T x o).2 = (Spec.absStep (modelLikely T) (abs x) o).2 :=
   step_refines T (modelLikely T) (modelLikely_agrees T) x o hx
+
+/-- the same against the dictionary formulation of the likely-subtags data (`Spec.specLikely`),
+    given that the code's `maximize` / `minimize` compute it on valid triples — `hmax`, `hmin` are
+    the statements of C06 / C08 -/
+theorem refine_step_spec (T : Tables)
+    (hmax : ∀ l s r, validTriple l s r = true →
+      Likely.maximize T l s r = .ok (Spec.maximize (Spec.findTables T) l s r))
+    (hmin : ∀ l s r, validTriple l s r = true →
+      Likely.minimize T l s r = .ok (Spec.minimize (Spec.findTables T) l s r))
+    (x : Locale) (o : Op) (hx : x.inv = true) :
+    abs (step T x o).1 = (Spec.absStep (Spec.specLikely T) (abs x) o).1 ∧
+    (step T x o).2 = (Spec.absStep (Spec.specLikely T) (abs x) o).2 :=
+  step_refines T (Spec.specLikely T) (likelyAgrees_specLikely T hmax hmin) x o hx
 
 /-- Every getter (`language`, `script`, `region`, `variants()`, `attributes()`, `keyword_keys()`,
     `keyword(k)` of each stored key, `tlang`, `tfield_keys()`, `tfield(k)`, `tags()`, the four
@@ -310,6 +325,46 @@ theorem reparse_after_history (T : Tables)
   intro r hr
   have hinv := (histories_of_pres T (modelLikely T) (modelLikely_agrees T) hpres x hx os).2 r hr
   exact ⟨hrt r.1 hinv, display_eq_canon r.1⟩
+
+
+/-! ### the statements with every hypothesis discharged
+
+`hpres` is the reachability theorem (`Reach.step_inv`: every call preserves the invariant on tables
+satisfying `tablesWF`), `hparse` and `hrt` are C05's theorems.  What remains is `tablesWF T`, which
+is decided for the compiled tables by the kernel (`Lemmas/GenDataWF`, used by C06/C18). -/
+
+/-- From any obtainable value, along any finite sequence of public calls with arbitrary arguments:
+    the abstract value and the output of every call are the reference model's, every getter
+    (`obs`) agrees with the reference model after every call, the invariant holds after every call,
+    and the value re-parses from its `to_string()` — the text being the reference model's canonical
+    text. -/
+theorem histories_full (T : Tables) (hT : tablesWF T = true) (x : Locale) (hx : x.inv = true) (os : List Op) :
+    (run T x os).map (fun r => (abs r.1, r.2)) = Spec.absRun (modelLikely T) (abs x) os ∧
+    (run T x os).map (fun r => (r.2, obs r.1)) =
+      (Spec.absRun (modelLikely T) (abs x) os).map (fun r => (r.2, Spec.absObs (modelLikely T) r.1)) ∧
+    (∀ r ∈ run T x os, r.1.inv = true ∧ Locale.fromBytes (Locale.display r.1) = .ok r.1 ∧
+      Locale.display r.1 = Spec.canon (Spec.toLocV (abs r.1))) := by
+  have hpres : ∀ x o, x.inv = true → (step T x o).1.inv = true := fun x o hx => UL.Reach.step_inv T x o hT hx
+  have h1 := histories_of_pres T (modelLikely T) (modelLikely_agrees T) hpres x hx os
+  refine ⟨h1.1, histories_obs_of_pres T (modelLikely T) (modelLikely_agrees T) hpres x hx os, ?_⟩
+  intro r hr
+  have h2 := reparse_after_history T hpres UL.Props.C05.locale_roundtrip x hx os r hr
+  exact ⟨h1.2 r hr, h2.1, h2.2⟩
+
+/-- … from `Locale::default()` -/
+theorem histories_full_from_default (T : Tables) (hT : tablesWF T = true) (os : List Op) :
+    (run T {} os).map (fun r => (abs r.1, r.2)) = Spec.absRun (modelLikely T) {} os ∧
+    (∀ r ∈ run T {} os, r.1.inv = true ∧ Locale.fromBytes (Locale.display r.1) = .ok r.1) := by
+  have h := histories_full T hT {} default_inv os
+  exact ⟨h.1, fun r hr => ⟨(h.2.2 r hr).1, (h.2.2 r hr).2.1⟩⟩
+
+/-- … from any parsed value -/
+theorem histories_full_from_parsed (T : Tables) (hT : tablesWF T = true) (bs : Bytes) (x : Locale)
+    (hbs : Locale.fromBytes bs = .ok x) (os : List Op) :
+    (run T x os).map (fun r => (abs r.1, r.2)) = Spec.absRun (modelLikely T) (abs x) os ∧
+    (∀ r ∈ run T x os, r.1.inv = true ∧ Locale.fromBytes (Locale.display r.1) = .ok r.1) := by
+  have h := histories_full T hT x (UL.Props.C05.parsed_locale_inv bs x hbs) os
+  exact ⟨h.1, fun r hr => ⟨(h.2.2 r hr).1, (h.2.2 r hr).2.1⟩⟩
 
 /-! ### non-vacuity and pinned instances -/
 
